@@ -322,6 +322,22 @@ def c14Ok (k : Kind) (reserved : Str → Bool) (c : Construct) (emitted : Str) :
   | some items => emittedOk k reserved items emitted
   | none => false
 
+/-- Weaker oracle for statements compiled by SQLAlchemy's own constructs on behalf of an Alembic operation
+    (CREATE INDEX, ADD CONSTRAINT, INSERT, SET IDENTITY_INSERT …): somewhere in the statement there is a
+    maximal dotted chain of identifier tokens that names `schema . names` (schema present iff given),
+    and the text is lexically complete.  `prevDot`: the previous token was a dot (not a chain start). -/
+def mentionsFrom (reserved : Str → Bool) (schema : Option Str) (names : List Str) : Bool → List Tok → Bool
+  | _, [] => false
+  | prevDot, t :: rest =>
+    (!prevDot &&
+      (match chain reserved (t :: rest) with
+       | some (ds, _) => refOk schema names ds
+       | none => false)) ||
+    mentionsFrom reserved schema names (t == .sym '.') rest
+
+def mentionsRef (k : Kind) (reserved : Str → Bool) (schema : Option Str) (names : List Str) (s : Str) : Bool :=
+  !(lex k s).contains .bad && mentionsFrom reserved schema names false (lex k s)
+
 /-- texts the theorems treat as opaque must be lexically complete: non-empty, no tab, no
     leading/trailing blank, and the lexer ends outside any literal / delimited identifier -/
 def cleanSt : St → Bool
